@@ -58,10 +58,11 @@ theorem sep_open {st : PState} {ug p : Option Nat} {base : Nat} {E : Tree} {re c
     exact sep_not_optional t.type (by unfold isSepTok at ht; simpa using ht)
 
 /-- an expression, a separator (with trivia before and trivia / further separators after it), and an operand -/
-theorem expr_sep {e x ws1 ws2 : List PToken} {ls : Bool} {t : PToken} (he : ExprOK false e ls) (hx : OpdOK x)
+theorem expr_sep {c1 c2 : Nat} {e x ws1 ws2 : List PToken} {ls : Bool} {t : PToken} (he : ExprOK c1 false e ls)
+    (hx : OpdOK c2 x)
     (ht : isSepTok t = true) (hw1 : ∀ w ∈ ws1, isTriviaTok w = true) (hw2 : ∀ w ∈ ws2, isFillTok w = true)
     (hxne : x ≠ []) (hxh : ∀ r, closerFollows (x ++ r) = false) :
-    ExprOK false (e ++ (ws1 ++ (t :: (ws2 ++ x)))) false := by
+    ExprOK (c1 + c2) false (e ++ (ws1 ++ (t :: (ws2 ++ x)))) false := by
   intro st0 ug p base hO hfs hprios hcg hk hsp pos hnum rest
   have hs : (getDefinition t.type).2 = .subexpression := by unfold isSepTok at ht; simpa using ht
   obtain ⟨_, _, _, _, _, hnb, _, _⟩ := sep_def_facts t.type hs
@@ -72,7 +73,7 @@ theorem expr_sep {e x ws1 ws2 : List PToken} {ls : Bool} {t : PToken} (he : Expr
   have htcol : t.col = pos + e.length + ws1.length := hnum2.1
   have hnum3 := numbered_append ws2 x _ hnum2.2
   -- the expression so far
-  obtain ⟨stE, E, re, cb, hloopE, hinvE, hgsE, hcgE, ho1E, ho2E, hrdE, hrefE⟩ :=
+  obtain ⟨stE, E, re, cb, hloopE, hinvE, hgsE, hcgE, ho1E, ho2E, hrdE, hcntE, hrefE⟩ :=
     he st0 ug p base hO hfs hprios hcg hk hsp pos hnume (ws1 ++ (t :: (ws2 ++ x)) ++ rest)
   have hkE : KindOK stE ug false := by
     apply hk.transfer (base := base) _ ho2E
@@ -93,13 +94,22 @@ theorem expr_sep {e x ws1 ws2 : List PToken} {ls : Bool} {t : PToken} (he : Expr
     rw [hcg1', hgs1']
     show stE'.currentGroup = if stE'.groupStack.isEmpty then none else some (stE'.groupStack.size - 1)
     rw [hcgE', hgsE', hcgE, hgsE]; exact hcg
-  obtain ⟨st2, sub, cb', P, hloopX, hres, hP, hrefX⟩ :=
+  obtain ⟨st2, sub, cb', P, hloopX, hres, hP, hcntX, hrefX⟩ :=
     hx s1' ug hO1' (by rw [hn1']; exact hprios1) hcg1ok _ hnum3 rest
   have hres1 : OpdRes (sepState stE' t nodes' info) st2 sub cb' := hres.transfer hn1'.symm hnp1'.symm hgs1'.symm hcg1'.symm
   obtain ⟨re', hinv2, hdefs2, ho12, ho22, hdn⟩ := hK st2 sub cb' hres1
   rw [hnE'] at hinv2 hdefs2 ho12 ho22 hdn
+  have hSs : (sepState stE' t nodes' info).nodes.size = stE.nodes.size + 1 := by
+    have : (sepState stE' t nodes' info).nodes.size = nodes'.size + 1 := by simp [sepState]
+    rw [this, hsz', hnE']
+  have hcnt : (insertC cb (prioAt stE.nodes) q false stE.nodes.size t.col sub E).inorder.length + base + (c1 + c2) =
+      st2.nodes.size := by
+    rw [insertC_inorder]
+    simp only [List.length_append, List.length_cons]
+    rw [hn1'] at hcntX
+    omega
   refine ⟨st2, _, re', cb', ?_, hinv2, ?_, ?_, fun j hj => by rw [ho22 j hj, ho1E j hj],
-    fun j hj => by rw [ho12 j hj, ho2E j hj], fun _ => hres.ready, ?_⟩
+    fun j hj => by rw [ho12 j hj, ho2E j hj], fun _ => hres.ready, hcnt, ?_⟩
   · have e1 : e ++ (ws1 ++ (t :: (ws2 ++ x))) ++ rest = e ++ (ws1 ++ (t :: (ws2 ++ x)) ++ rest) := by simp
     have e2 : ws1 ++ (t :: (ws2 ++ x)) ++ rest = ws1 ++ ((t :: (ws2 ++ x)) ++ rest) := by simp
     rw [e1, hloopE, e2, hloopW1]
